@@ -112,6 +112,10 @@ func TestVerifC06Route(t *testing.T) {
 					}
 				}
 			}
+			// the size estimate a randomsub node is given decides how many peers it picks: from below the fixed minimum
+			// up to more than it will ever have
+			rsSize := []int{10, 10, 40, 100, 400}[c.Intn(5)]
+			r.n.rsSize = rsSize
 			if err := r.Start(router, opts...); err != nil {
 				c.Inconclusive("node: %v", err)
 				return
@@ -435,8 +439,12 @@ func TestVerifC06Route(t *testing.T) {
 					}
 				} else {
 					target := RandomSubD
-					if s := int(math.Ceil(math.Sqrt(10))); s > target {
+					if s := int(math.Ceil(math.Sqrt(float64(rsSize)))); s > target {
 						target = s
+					}
+					if target > len(rs) {
+						target = len(rs)
+						classes["randomsub_fewer_peers_than_target"]++
 					}
 					got := 0
 					for _, p := range rs {
